@@ -109,6 +109,7 @@ type net struct {
 	seq      int
 	now      int64
 	gst      int64 // after this time: no drops, bounded delay, adversary silent
+	byzActs  int   // how often the adversary acted in this run
 	delayMax int64
 	dropPct  int
 	dupPct   int
@@ -482,6 +483,7 @@ func (n *net) byzAct() {
 	if len(byz) == 0 {
 		return
 	}
+	n.byzActs++
 	b := byz[n.rng.Intn(len(byz))]
 	round := n.maxRound
 	if n.script {
@@ -977,7 +979,7 @@ func runOnce(out *vh.Out, rng *vh.Rng, runNo int, mode string) {
 			decRound = nd.decRound
 		}
 	}
-	out.Line("end %d now=%d gst=%d maxround=%d delta=%d capped=%d gstround=%d decround=%d", runNo, n.now, n.gst, n.maxRound, int64(delta), capped, gstRound, decRound)
+	out.Line("end %d now=%d gst=%d maxround=%d delta=%d capped=%d gstround=%d decround=%d byz=%d", runNo, n.now, n.gst, n.maxRound, int64(delta), capped, gstRound, decRound, n.byzActs)
 }
 
 func main() {
